@@ -266,9 +266,11 @@ func runC17(args []string) error {
 	sm := g.sm
 	distinct := distinctSet{}
 	nHeaders, nLines, nSeqs, nE2E := 1500, 1500, 150, 40
+	nSess := 60
 	nameCtxs := []c17ctx{c17Ctxs[0], c17Ctxs[1+int(*seed)%(len(c17Ctxs)-1)]}
 	if *tier == "thorough" {
 		nHeaders, nLines, nSeqs, nE2E = 40000, 40000, 3000, 150
+		nSess = 400
 		nameCtxs = c17Ctxs
 	}
 
@@ -619,6 +621,88 @@ func runC17(args []string) error {
 		}
 	}
 
+	// ---------------------------------------------------------------- F. sessions of several packages on one interpreter (the tag set is the
+	// interpreter's: a yaegi:tags line of a selected file counts for every file examined after it, in the same package or a later one)
+	for i := 0; i < nSess; i++ {
+		c := c17ctx{GOOS: build.Default.GOOS, GOARCH: build.Default.GOARCH}
+		for _, t := range c17CustomTags {
+			if g.r.chance(25) {
+				c.Tags = append(c.Tags, t)
+			}
+		}
+		np := 2 + g.r.intn(2)
+		mfs := fstest.MapFS{}
+		refTags := append([]string(nil), c.Tags...)
+		type fileDesc struct{ Pkg, Name, Source string }
+		var files []fileDesc
+		var hs, gs, refs []string
+		var syms [][2]string // package, symbol, in the order the files are examined
+		var pkgs []string
+		for p := 0; p < np; p++ {
+			pk := fmt.Sprintf("pk%d", p)
+			pkgs = append(pkgs, pk)
+			// "a_base.go" is examined first and always selected, so that the package exists
+			mfs["src/"+pk+"/a_base.go"] = &fstest.MapFile{Data: []byte("package " + pk + "\n\nfunc Base() string { return \"Base\" }\n")}
+			nf := 2 + g.r.intn(3)
+			for j := 0; j < nf; j++ {
+				sym := fmt.Sprintf("F%d", j)
+				name := fmt.Sprintf("f%d.go", j)
+				h := c17header{}
+				if g.r.chance(75) {
+					h.Plus = g.plusLines(c, g.plainTag)
+				}
+				if g.r.chance(55) {
+					n := 1 + g.r.intn(2)
+					for k := 0; k < n; k++ {
+						h.YTags = append(h.YTags, g.r.pick(c17CustomTags))
+					}
+				}
+				groups, adjacent := h.groups()
+				src := renderSource(groups, adjacent, fmt.Sprintf("\nfunc %s() string { return %q }\n", sym, pk+"."+sym))
+				src = strings.Replace(src, "package p\n", "package "+pk+"\n", 1)
+				mfs["src/"+pk+"/"+name] = &fstest.MapFile{Data: []byte(src)}
+				files = append(files, fileDesc{pk, name, src})
+				rc := c
+				rc.Tags = refTags
+				m, rerr := refMatch(rc, name, src)
+				m = m && rerr == nil
+				if m {
+					for _, t := range h.YTags {
+						found := false
+						for _, x := range refTags {
+							found = found || x == t
+						}
+						if !found {
+							refTags = append(refTags, t)
+						}
+					}
+				}
+				hs = append(hs, h.coq())
+				gs = append(gs, coqGroups(groups))
+				refs = append(refs, coqBool(m))
+				syms = append(syms, [2]string{pk, sym})
+			}
+		}
+		how := g.r.intn(2) // 0: one Eval per import, 1: one import declaration for all
+		visible, evalErr := c17SessionVisible(mfs, c.Tags, pkgs, syms, how == 1)
+		var obs []string
+		for _, v := range visible {
+			obs = append(obs, coqOpt(evalErr == "", coqBool(v)))
+		}
+		in := map[string]any{"kind": "session", "tags": c.Tags, "packages": pkgs, "one_import_decl": how == 1, "files": files}
+		cid := newID(in)
+		seqCases = append(seqCases, fmt.Sprintf("(%d%%N, %s, %s, %s, %s, %s)", cid, c.coq(), coqList(hs), coqList(gs), coqList(obs), coqList(refs)))
+		sm.Evaluations++
+		sm.RefComparisons++
+		sm.ImplComparisons++
+		sm.count("session")
+		sm.count(fmt.Sprintf("session-how-%d", how))
+		distinct.add("sess", fmt.Sprint(files), strings.Join(c.Tags, ","), fmt.Sprint(how))
+		if evalErr != "" || strings.Join(obs, ";") != seqAsOpt(refs) {
+			sm.RefMismatches = append(sm.RefMismatches, refMismatch{ID: cid, Region: "", Input: in, Impl: map[string]any{"visible": visible, "error": evalErr}, Ref: refs})
+		}
+	}
+
 	// ---------------------------------------------------------------- write cases files
 	hdr := "From Verif Require Import Lib.Str Build.Model Build.Cases.\n"
 	write := func(name, body string) error {
@@ -657,7 +741,7 @@ func runC17(args []string) error {
 	sm.DistinctNontriv = len(distinct)
 	sm.Exhaustive = false
 	sm.Rule = "file names: every one- and two-word combination of the OS/arch words known to yaegi or go/build (plus unknown words) x 3 prefixes x {.go,_test.go} x contexts (exhaustive over that word set); " +
-		"headers: seeded structured +build / go:build headers, raw boundary headers, file sequences with yaegi:tags, and whole packages loaded through EvalPath on a MapFS; " +
+		"headers: seeded structured +build / go:build headers, raw boundary headers, file sequences with yaegi:tags, whole packages loaded through EvalPath on a MapFS, and sessions of several packages imported on one interpreter (tag set shared across packages; their observations are also checked against Y in Coq); " +
 		"distinct = distinct (context, input) pairs; non-trivial = the name has an underscore part / the header has at least one constraint line"
 	return sm.write(*out)
 }
@@ -740,6 +824,39 @@ func c17Visible(mfs fstest.MapFS, tags []string, syms []string) (visible []strin
 		if err == nil && v.IsValid() && v.Kind() == reflect.String && v.String() == sname {
 			visible = append(visible, sname)
 		}
+	}
+	return visible, ""
+}
+
+// c17SessionVisible loads the packages in order on ONE interpreter (one Eval per import, or one import declaration)
+// and reports, for every (package, symbol) in the order the files are examined, whether the symbol is defined.
+func c17SessionVisible(mfs fstest.MapFS, tags []string, pkgs []string, syms [][2]string, oneDecl bool) (visible []bool, evalErr string) {
+	defer func() {
+		if r := recover(); r != nil {
+			evalErr = fmt.Sprint("host panic: ", r)
+		}
+	}()
+	visible = make([]bool, len(syms))
+	i := interp.New(interp.Options{GoPath: ".", BuildTags: append([]string(nil), tags...), SourcecodeFilesystem: mfs})
+	if oneDecl {
+		src := "import (\n"
+		for _, p := range pkgs {
+			src += fmt.Sprintf("\t%q\n", p)
+		}
+		src += ")"
+		if _, err := i.Eval(src); err != nil {
+			return visible, err.Error()
+		}
+	} else {
+		for _, p := range pkgs {
+			if _, err := i.Eval(fmt.Sprintf("import %q", p)); err != nil {
+				return visible, err.Error()
+			}
+		}
+	}
+	for k, ps := range syms {
+		v, err := i.Eval(ps[0] + "." + ps[1] + "()")
+		visible[k] = err == nil && v.IsValid() && v.Kind() == reflect.String && v.String() == ps[0]+"."+ps[1]
 	}
 	return visible, ""
 }
